@@ -69,7 +69,7 @@ func runC16(w *World, r *Report, tier string) {
 	}
 	hc := hcalls[0].(*ssa.Call)
 	okID := false
-	if ex, ok := hc.Call.Args[1].(*ssa.Extract); ok && ex.Index == 0 {
+	if ex, ok := origin(hc.Call.Args[1]).(*ssa.Extract); ok && ex.Index == 0 {
 		if c, ok := ex.Tuple.(*ssa.Call); ok && w.callKey(c) == "xmpp.Transport.Connect" {
 			okID = true
 		}
@@ -247,7 +247,7 @@ func runC16(w *World, r *Report, tier string) {
 				viaOK = true
 			}
 		})
-		val := ret.Results[0]
+		val := rvI(ret.Results[0], len(path)-1)
 		if viaOK {
 			nOK++
 			readOK := perr != nil && pathAsserts(path, func(c ssa.Value, truth bool) bool { return assertsNil(c, truth, perr) })
